@@ -231,10 +231,13 @@ func usable3(r rec3) bool { return r.alg == 1 && r.iter <= 150 && (r.flags == 0 
 // record of another chain / class / zone / malformed: must be refused),
 // "skippable" (genuine + only unusable strangers: the exact validators skip
 // those, the aggressive classifier refuses), "other".
-func (z3 *zone3) setKind(rs []rec3) string {
+func (z3 *zone3) setKind(rs []rec3, filtered bool) string {
 	g := z3.ring()
 	foreignUsable, foreignUnusable, gen := 0, 0, 0
 	for _, r := range rs {
+		if filtered && !r.owner().fold().under(z3.z.apex) {
+			continue // FilterRRsToZone drops it before the validator sees it
+		}
 		ok := false
 		for _, x := range g {
 			if sameRec3(r, x) {
@@ -250,7 +253,7 @@ func (z3 *zone3) setKind(rs []rec3) string {
 		default:
 			// a usable stranger: is it of a different chain (params / class / zone / malformed)?
 			diff := r.iter != z3.iter || !bytes.Equal(r.salt, z3.salt) || r.saltBad || r.cls != z3.z.cls ||
-				!r.parent.fold().eq(z3.z.apex) || r.ownerHash == nil || r.next == nil || r.hashLen != 20
+				!r.parent.fold().eq(z3.z.apex) || r.ownerHash == nil || r.next == nil
 			if !diff {
 				return "other" // same chain parameters but not a genuine record: forged
 			}
@@ -374,6 +377,12 @@ func execNsec3(f []string) vlib.Res {
 		}
 		curZ3, curSet3, curRR3 = z3, nil, nil
 		return vlib.Res{Impl: "ring=" + itoa(len(z3.ring()))}
+	case "ring":
+		// the genuine ring of the current zone (for building witnesses by hand); oracle-side only
+		return vlib.Res{Impl: recs3Str(curZ3.ring())}
+	case "table":
+		// the hash table argument for a name (oracle-side helper)
+		return vlib.Res{Impl: hashTable(parseName(f[2]), curZ3.z.apex)}
 	case "set":
 		curSet3, curRR3 = nil, nil
 		if f[2] != "-" {
@@ -418,7 +427,7 @@ func execNsec3(f []string) vlib.Res {
 			secure, err = dnssec.VerifyNODATAForZoneWithWork(question(q, t, c, dns.RcodeSuccess), set, signer.pres(), nil)
 		}
 		res := vlib.Res{Impl: secStr(secure, err), Oracle: "-", Tags: "unjudged"}
-		kind := curZ3.setKind(curSet3)
+		kind := curZ3.setKind(curSet3, true)
 		if signer.fold().eq(curZ3.z.apex) && kind != "other" {
 			res.Oracle, res.Tags = "ok", "rejected,"+kind
 			if err == nil {
@@ -434,8 +443,6 @@ func execNsec3(f []string) vlib.Res {
 					res.Oracle = fmt.Sprintf("FAIL sig=nsec3/%s/optout-marked-secure", entry)
 				case secure && truth != want:
 					res.Oracle = fmt.Sprintf("FAIL sig=nsec3/%s/%s-accepted truth=%s", entry, why, truth)
-				case !secure && !restsOnOptOut(q):
-					res.Oracle = fmt.Sprintf("FAIL sig=nsec3/%s/insecure-without-optout", entry)
 				}
 				if !secure {
 					res.Tags += ",optout"
@@ -448,7 +455,7 @@ func execNsec3(f []string) vlib.Res {
 		set := dnsutil.FilterRRsToZone(curRR3, signer.pres())
 		err := dnssec.VerifyDelegationForZoneWithWork(d.pres(), signer.pres(), set, nil)
 		res := vlib.Res{Impl: errStr(err), Oracle: "-", Tags: "unjudged"}
-		kind := curZ3.setKind(curSet3)
+		kind := curZ3.setKind(curSet3, true)
 		if signer.fold().eq(curZ3.z.apex) && kind != "other" {
 			res.Oracle, res.Tags = "ok", "rejected,"+kind
 			if err == nil {
@@ -472,7 +479,7 @@ func execNsec3(f []string) vlib.Res {
 		dq := dns.Question{Name: q.pres(), Qtype: t, Qclass: c}
 		r1, e1 := dnssec.EvaluateAggressiveNSEC3(dq, signer.pres(), curRR3, nil)
 		res := vlib.Res{Impl: aggResult(r1, e1, curRR3), Oracle: "-", Tags: "unjudged"}
-		kind := curZ3.setKind(curSet3)
+		kind := curZ3.setKind(curSet3, false)
 		if signer.fold().eq(curZ3.z.apex) && kind != "other" {
 			res.Oracle, res.Tags = "ok", "rejected,"+kind
 			if e1 == nil {
@@ -505,6 +512,10 @@ func execNsec3(f []string) vlib.Res {
 
 func genNsec3Case(r *vlib.R, emit func(string)) int {
 	z := genZone(r)
+	for _, nd := range z.nodes {
+		delete(nd.types, tNSEC) // an NSEC3-signed zone has no NSEC RRsets
+	}
+	z.byKey[z.apex.key()].types[tNSEC3P] = true
 	z3 := &zone3{z: z, opted: map[string]bool{}}
 	switch r.Intn(4) {
 	case 0:
